@@ -6,6 +6,10 @@ From Coq Require Import Strings.Byte.
 From Verif Require Import Base.Bytes Base.Hex Base.Utf8 Crypto.Hmac Time.Calendar Time.Iso8601 Time.Render.
 From Verif Require Import Generated.SrcConsts Model.Errors Model.Uri Model.Query Model.Headers Model.Labels Model.Requirements Model.Validate.
 From Verif Require Import Spec.PathSpec Spec.QuerySpec Spec.Signer Spec.RequestSpec.
+From Verif Require Import Proofs.PathProofs Proofs.QueryProofs Proofs.HeaderProofs Proofs.KeyProofs Proofs.ReqProofs.
+From Verif Require Import Proofs.PipelineProofs Proofs.SelectionProofs.
+From Verif Require Proofs.AuthProofs Proofs.IsoProofs.
+From Verif Require Import Proofs.SoundnessProofs.
 From Verif Require Import Proofs.PathProofs Proofs.QueryProofs Proofs.HeaderProofs Proofs.KeyProofs.
 From Coq Require Import List Bool NArith Arith Lia Wf_nat.
 From Verif Require Import Base.Bytes Base.Hex Generated.SrcConsts Model.Uri Spec.PathSpec.
@@ -17,9 +21,207 @@ From Coq Require Import ZArith Lia List Bool.
 From Coq Require Import ZifyBool.
 From Verif Require Import Base.Bytes Time.Calendar Time.Iso8601 Time.Render Spec.Grammar.
 From Verif Require Import Proofs.CalendarProofs.
-From Verif Require Import Proofs.SoundnessProofs Proofs.PathProofs Proofs.QueryProofs Proofs.HeaderProofs Proofs.IsoProofs.
+From Verif Require Import Proofs.CompletenessProofs Proofs.SoundnessProofs Proofs.PathProofs Proofs.QueryProofs Proofs.HeaderProofs Proofs.IsoProofs.
+Local Notation fresh := AuthProofs.fresh.
 Local Open Scope byte_scope.
 Local Open Scope Z_scope.
+
+Theorem C02_spec_signed_accepted :
+  forall (H : bytes -> bytes), forall rq cf pv cr pts body ap ts ak key pr se sts,
+    from_request_parts H rq cf = Ok (cr, pts, body) ->
+    has_plus (rq_path rq) = false ->
+    presented_params H rq cf = Some ap ->
+    parse_iso8601 (ap_timestamp ap) = Some ts ->
+    fresh ts (cf_now cf) ->
+    split_on "/"%byte (ap_credential ap) = [ak; yyyymmdd ts; cf_region cf; cf_service cf; s2b "aws4_request"] ->
+    pv_ready pv = None ->
+    pv_answer pv (expected_gsk cf ap ts) = AnsOk key pr se ->
+    spec_request_sts H rq cf ap ts = Some sts ->
+    ap_signature ap = lower_hex (hmac H key sts) ->
+    validate H rq cf pv = ([expected_gsk cf ap ts], Accepted pts body pr se).
+Proof. exact CompletenessProofs.C02_spec_signed_accepted. Qed.
+Print Assumptions C02_spec_signed_accepted.
+
+Theorem C02_accept_iff_spec_signature :
+  forall (H : bytes -> bytes), forall rq cf pv pr se,
+    has_plus (rq_path rq) = false ->
+    ((exists calls p b, validate H rq cf pv = (calls, Accepted p b pr se))
+     <->
+     (exists ap ts ak key sts,
+        presented_params H rq cf = Some ap /\
+        parse_iso8601 (ap_timestamp ap) = Some ts /\
+        fresh ts (cf_now cf) /\
+        split_on "/"%byte (ap_credential ap) = [ak; yyyymmdd ts; cf_region cf; cf_service cf; s2b "aws4_request"] /\
+        pv_ready pv = None /\
+        pv_answer pv (expected_gsk cf ap ts) = AnsOk key pr se /\
+        spec_request_sts H rq cf ap ts = Some sts /\
+        ap_signature ap = lower_hex (hmac H key sts))).
+Proof. exact CompletenessProofs.C02_accept_iff_spec_signature. Qed.
+Print Assumptions C02_accept_iff_spec_signature.
+
+Theorem C02_presented_params_intro :
+  forall (H : bytes -> bytes), forall rq cf,
+    request_failure rq cf = None ->                                   
+    params_failure (st_canonical H rq cf) = None ->                   
+    host_or_authority (ap_signed (sel_params (st_canonical H rq cf))) ->
+    requirements_met (cf_reqs cf) (rq_headers rq) (ap_signed (sel_params (st_canonical H rq cf))) ->
+    from_request_parts H rq cf = Ok (st_canonical H rq cf, st_parts rq cf, spec_payload rq cf)
+    /\ presented_params H rq cf = Some (sel_params (st_canonical H rq cf)).
+Proof. exact CompletenessProofs.C02_presented_params_intro. Qed.
+Print Assumptions C02_presented_params_intro.
+
+Theorem C02_spec_path_same_path :
+  forall s3 p1 p2, same_path p1 p2 -> spec_path s3 p1 = spec_path s3 p2.
+Proof. exact CompletenessProofs.spec_path_same_path. Qed.
+Print Assumptions C02_spec_path_same_path.
+
+Theorem C02_canon_path_same_path :
+  forall s3 p1 p2,
+  has_plus p1 = false -> has_plus p2 = false -> same_path p1 p2 -> canon_path s3 p1 = canon_path s3 p2.
+Proof. exact CompletenessProofs.canon_path_same_path. Qed.
+Print Assumptions C02_canon_path_same_path.
+
+Theorem C11_block_trimall :
+  forall hs1 hs2 signed,
+  (forall n, In n signed -> agree_on n hs1 hs2) ->
+  spec_header_block hs1 signed = spec_header_block hs2 signed.
+Proof. exact CompletenessProofs.C11_block_trimall. Qed.
+Print Assumptions C11_block_trimall.
+
+Theorem C02_spelling_insensitive_components :
+  forall rq1 rq2 cf,
+    same_logical rq1 rq2 -> cf_fold cf = false ->
+    spec_path (cf_s3 cf) (rq_path rq1) = spec_path (cf_s3 cf) (rq_path rq2)
+    /\ option_map spec_query_of_pairs (spec_all_pairs rq1 cf) = option_map spec_query_of_pairs (spec_all_pairs rq2 cf)
+    /\ (forall signed, spec_header_block (rq_headers rq1) signed = spec_header_block (rq_headers rq2) signed)
+    /\ spec_payload rq1 cf = spec_payload rq2 cf
+    /\ rq_method rq1 = rq_method rq2.
+Proof. exact CompletenessProofs.C02_spelling_insensitive_components. Qed.
+Print Assumptions C02_spelling_insensitive_components.
+
+Theorem C02_spelling_insensitive_sts :
+  forall (H : bytes -> bytes), forall rq1 rq2 cf ap ts,
+    same_logical rq1 rq2 -> cf_fold cf = false ->
+    spec_request_sts H rq1 cf ap ts = spec_request_sts H rq2 cf ap ts.
+Proof. exact CompletenessProofs.C02_spelling_insensitive_sts. Qed.
+Print Assumptions C02_spelling_insensitive_sts.
+
+Theorem C02_spelling_insensitive :
+  forall (H : bytes -> bytes), forall rq1 rq2 cf pv ap,
+    same_logical rq1 rq2 -> cf_fold cf = false ->
+    presented_params H rq1 cf = Some ap -> presented_params H rq2 cf = Some ap ->
+    fst (validate H rq1 cf pv) = fst (validate H rq2 cf pv)
+    /\ same_verdict (snd (validate H rq1 cf pv)) (snd (validate H rq2 cf pv)).
+Proof. exact CompletenessProofs.C02_spelling_insensitive. Qed.
+Print Assumptions C02_spelling_insensitive.
+
+Theorem C02_spelling_insensitive_accept :
+  forall (H : bytes -> bytes), forall rq1 rq2 cf pv ap calls pr se,
+    same_logical rq1 rq2 -> cf_fold cf = false ->
+    presented_params H rq1 cf = Some ap -> presented_params H rq2 cf = Some ap ->
+    ((exists p b, validate H rq1 cf pv = (calls, Accepted p b pr se)) <->
+     (exists p b, validate H rq2 cf pv = (calls, Accepted p b pr se))).
+Proof. exact CompletenessProofs.C02_spelling_insensitive_accept. Qed.
+Print Assumptions C02_spelling_insensitive_accept.
+
+Theorem C02_presented_params_header_carrier :
+  forall (H : bytes -> bytes), forall rq1 rq2 cf,
+    same_logical rq1 rq2 -> cf_fold cf = false ->
+    present (s2b "authorization") (rq_headers rq1) ->
+    presented_params H rq1 cf = presented_params H rq2 cf.
+Proof. exact CompletenessProofs.C02_presented_params_header_carrier. Qed.
+Print Assumptions C02_presented_params_header_carrier.
+
+Theorem C02_spelling_insensitive_header_carrier :
+  forall (H : bytes -> bytes), forall rq1 rq2 cf pv,
+    same_logical rq1 rq2 -> cf_fold cf = false ->
+    present (s2b "authorization") (rq_headers rq1) ->
+    fst (validate H rq1 cf pv) = fst (validate H rq2 cf pv)
+    /\ same_verdict (snd (validate H rq1 cf pv)) (snd (validate H rq2 cf pv)).
+Proof. exact CompletenessProofs.C02_spelling_insensitive_header_carrier. Qed.
+Print Assumptions C02_spelling_insensitive_header_carrier.
+
+Theorem C02_spelling_insensitive_folded_sts :
+  forall (H : bytes -> bytes), forall rq1 rq2 cf ap ts,
+    same_logical_folded rq1 rq2 -> spec_folded rq1 cf = true ->
+    spec_request_sts H rq1 cf ap ts = spec_request_sts H rq2 cf ap ts.
+Proof. exact CompletenessProofs.C02_spelling_insensitive_folded_sts. Qed.
+Print Assumptions C02_spelling_insensitive_folded_sts.
+
+Theorem C02_spelling_insensitive_folded :
+  forall (H : bytes -> bytes), forall rq1 rq2 cf pv ap,
+    same_logical_folded rq1 rq2 -> spec_folded rq1 cf = true ->
+    presented_params H rq1 cf = Some ap -> presented_params H rq2 cf = Some ap ->
+    fst (validate H rq1 cf pv) = fst (validate H rq2 cf pv)
+    /\ same_verdict (snd (validate H rq1 cf pv)) (snd (validate H rq2 cf pv)).
+Proof. exact CompletenessProofs.C02_spelling_insensitive_folded. Qed.
+Print Assumptions C02_spelling_insensitive_folded.
+
+Theorem C02_reference_signer_accepted :
+  forall (H : bytes -> bytes), forall rq0 cf pv cred ak ts signed key pr se d,
+    let sig := spec_sign H key rq0 cf cred ts signed in
+    let rq := attach_authorization rq0 (authorization_value cred signed sig) in
+    let ap := {| ap_credential := cred; ap_signature := sig;
+                 ap_token := option_map latin1
+                               (option_map norm_value (first_raw (s2b "x-amz-security-token") (rq_headers rq0)));
+                 ap_signed := signed; ap_timestamp := latin1 (norm_value d) |} in
+    
+    has_plus (rq_path rq0) = false ->
+    
+    request_failure rq0 cf = None ->
+    ~ present (s2b "authorization") (rq_headers rq0) ->
+    qget (s2b "X-Amz-Algorithm") (st_qm rq0 cf) = None ->
+    spec_date (rq_headers rq0) = Some d ->
+    parse_iso8601 (latin1 (norm_value d)) = Some ts ->
+    
+    plain cred ->
+    split_on "/"%byte cred = [ak; yyyymmdd ts; cf_region cf; cf_service cf; s2b "aws4_request"] ->
+    Forall plain signed -> Forall (fun n => ~ In ";"%byte n) signed -> sort_bytes signed = signed ->
+    host_or_authority signed ->
+    ~ In (s2b "authorization") signed ->
+    requirements_met (cf_reqs cf) (rq_headers rq) signed ->
+    
+    fresh ts (cf_now cf) -> pv_ready pv = None ->
+    pv_answer pv (expected_gsk cf ap ts) = AnsOk key pr se ->
+    validate H rq cf pv = ([expected_gsk cf ap ts], Accepted (st_parts rq cf) (spec_payload rq cf) pr se).
+Proof. exact CompletenessProofs.C02_reference_signer_accepted. Qed.
+Print Assumptions C02_reference_signer_accepted.
+
+Theorem C02_reference_signer_accepted_compact :
+  forall (H : bytes -> bytes), forall rq0 cf pv cred ak ts signed key pr se,
+    let sig := spec_sign H key rq0 cf cred ts signed in
+    let rq := attach_authorization rq0 (authorization_value cred signed sig) in
+    let ap := {| ap_credential := cred; ap_signature := sig;
+                 ap_token := option_map latin1
+                               (option_map norm_value (first_raw (s2b "x-amz-security-token") (rq_headers rq0)));
+                 ap_signed := signed; ap_timestamp := render_compact ts |} in
+    has_plus (rq_path rq0) = false ->
+    request_failure rq0 cf = None ->
+    ~ present (s2b "authorization") (rq_headers rq0) ->
+    qget (s2b "X-Amz-Algorithm") (st_qm rq0 cf) = None ->
+    
+    first_raw (s2b "x-amz-date") (rq_headers rq0) = Some (render_compact ts) ->
+    (0 <= ts < 253402300800 * ns_per_s)%Z -> (ts mod ns_per_s = 0)%Z ->
+    plain cred ->
+    split_on "/"%byte cred = [ak; yyyymmdd ts; cf_region cf; cf_service cf; s2b "aws4_request"] ->
+    Forall plain signed -> Forall (fun n => ~ In ";"%byte n) signed -> sort_bytes signed = signed ->
+    host_or_authority signed ->
+    ~ In (s2b "authorization") signed ->
+    requirements_met (cf_reqs cf) (rq_headers rq) signed ->
+    fresh ts (cf_now cf) -> pv_ready pv = None ->
+    pv_answer pv (expected_gsk cf ap ts) = AnsOk key pr se ->
+    validate H rq cf pv = ([expected_gsk cf ap ts], Accepted (st_parts rq cf) (spec_payload rq cf) pr se).
+Proof. exact CompletenessProofs.C02_reference_signer_accepted_compact. Qed.
+Print Assumptions C02_reference_signer_accepted_compact.
+
+Theorem C02_no_algorithm_parameter :
+  forall (H : bytes -> bytes), forall rq cf pairs,
+  request_failure rq cf = None ->
+  spec_all_pairs rq cf = Some pairs ->
+  (forall v, ~ In (s2b "X-Amz-Algorithm", v) pairs) ->
+  qget (s2b "X-Amz-Algorithm") (st_qm rq cf) = None.
+Proof. exact CompletenessProofs.C02_no_algorithm_parameter. Qed.
+Print Assumptions C02_no_algorithm_parameter.
 
 Theorem C02_model_creq_is_spec :
   forall (H : bytes -> bytes), forall rq cf cr pts body,
